@@ -56,6 +56,20 @@ pub fn gen_ell(rng: &mut Rng) -> Case {
         return Case::new("ell").u("depth", depth as u64).u("dd", dd as u64).f("lon", c.0).f("lat", c.1).f("a", a).f("b", b2).f("pa", pa2).u("s", rng.next() >> 1).s("cls", "singular-covariance@cell-centre");
       } }
     }
+    // centre given with a longitude of thousands to 1e13 turns (|lon| log-uniform in 1e3 .. 1e14 rad), depth coarse enough for the rounding
+    // of the longitude itself (4e-16 |lon|) to stay below 1e-3 cell; sizes from far below a cell up to 30 cells
+    if rng.below(30) == 0 {
+      let big = rng.log_uniform(1e3, 1e14) * if rng.coin() { 1.0 } else { -1.0 };
+      let tolp = 4e-16 * big.abs();
+      let mut d = depth.min(29 - dd); while d > 0 && (1.0 / nside(d + dd) as f64) < 1e3 * tolp { d -= 1; }
+      if (1.0 / nside(d + dd) as f64) >= 1e3 * tolp {
+        let cellq = 1.0 / nside(d + dd) as f64;
+        let a2 = (match rng.below(3) { 0 => rng.log_uniform(1e-10, cellq), 1 => cellq * rng.range(0.2, 30.0), _ => cellq * rng.log_uniform(1e-3, 30.0) }).max(1e-10).min(1.5);
+        let b2 = if rng.below(3) == 0 { a2 } else { a2 * rng.range(0.05, 1.0) };
+        let (_, lat2) = cone_center(rng);
+        return Case::new("ell").u("depth", d as u64).u("dd", dd as u64).f("lon", big).f("lat", lat2).f("a", a2).f("b", b2).f("pa", pa).u("s", rng.next() >> 1).s("cls", "centre-longitude-beyond-1e3-rad");
+      }
+    }
     // thin ellipses centred on (or within 1e-12..1e-7 rad of) a pole whose major axis lies along a diagonal meridian pi/4 + k.pi/2 of a polar
     // base cell (the corner cells of the base cell have their centres on that meridian at every depth: a chain of cell centres exactly on the
     // major axis, where a quadratic-form point-in-ellipse test cancels); large ellipses at moderate depths
@@ -136,18 +150,19 @@ pub fn judge(ctx: &mut Ctx, c: &Case) {
   ctx.eval();
   let hc = layer.hash(lon, lat);
   if cover.get(depth, hc).is_none() { ctx.violation("ellipse-centre-cell-missing", c.clone(), format!("cell {} of the centre not covered; {} cells: {}", hc, cells.len(), fmt_cells(&cells))); }
-  // tightness
+  // tightness (a longitude of many turns is itself known to a few ulps only: 4e-16 |lon| rad of positional slack, 0 within 50 rad)
+  let tol_pos = if lon.abs() > 50.0 { 4e-16 * lon.abs() } else { 0.0 };
   for &(d, h, _) in cells.iter() {
     ctx.eval();
     let dc = dist(ref_center(d, h), (lon, lat));
-    let lim = a + 2.0 * cell_radius_bound(d);
+    let lim = a + 2.0 * cell_radius_bound(d) + 8.0 * tol_pos;
     ctx.worst_max("(centre_distance - a) / cell_radius_bound", (dc - a) / cell_radius_bound(d));
     if dc > lim * (1.0 + 1e-12) { ctx.violation("reported-cell-farther-than-a+2-cell-radii", c.clone().u("cd", d as u64).u("ch", h), format!("cell {}/{} centre at {:e} > {:e}", d, h, dc, lim)); break; }
     // an entry coarser than the query depth stands for all its sub-cells of the query depth: the four at its corners are judged as cells
     // of the query depth (the BMOC is a set of cells of that depth)
     if d < depth {
       let sh = 2 * (depth - d) as u32; let mask = (1u64 << sh) - 1;
-      let limq = a + 2.0 * cell_radius_bound(depth);
+      let limq = a + 2.0 * cell_radius_bound(depth) + 8.0 * tol_pos;
       for (nm, sub) in [("S", 0u64), ("E", mask & 0x5555_5555_5555_5555), ("W", mask & 0xAAAA_AAAA_AAAA_AAAA), ("N", mask)].iter() {
         ctx.eval();
         let hq = (h << sh) | sub; let dq = dist(ref_center(depth, hq), (lon, lat));
@@ -167,7 +182,7 @@ pub fn judge(ctx: &mut Ctx, c: &Case) {
       let (rho, th) = if k < 64 { (a * (1.0 - 1e-6), (k as f64 + 0.5) * TWO_PI / 64.0) } else { (match k % 3 { 0 => a * rng.f().sqrt(), 1 => a * (1.0 - 1e-3 * rng.f()), _ => a * (1.0 - rng.log_uniform(1e-7, 0.5)) }, rng.f() * TWO_PI) };
       let p = point_at(lon, lat, rho, th);
       let d = dist(p, (lon, lat));
-      if !(d <= a * (1.0 - 1e-9)) { continue; }
+      if !(d <= a * (1.0 - 1e-9) - 8.0 * tol_pos) { continue; }
       n_wit += 1;
       let h = match catch(|| layer.hash(p.0, p.1)) { Ok(h) => h, Err(_) => continue };
       if cover.get(depth, h).is_none() && missed.is_none() { missed = Some((p, h, d)); }
